@@ -1200,6 +1200,12 @@ def rule_S8(ctx):
             if any(c.lineno < first_save.lineno for c in moves + parses):
                 continue  # the stream is moved before tell(): a size probe of an owned stream, not a position save
             saved = first_save.targets[0].id
+            # a construct `_parse(self, stream, context, path)` consumes its stream by contract; when it remembers where an element began
+            # only to step over that element (every use of the saved position is `saved + <size>` inside a seek), it is not a probe
+            uses_ = [x for x in own_nodes(fn) if isinstance(x, ast.Name) and x.id == saved and isinstance(x.ctx, ast.Load)]
+            if fn.name == "_parse" and [a.arg for a in fn.args.args][:4] == ["self", stream, "context", "path"] and uses_ \
+                    and all(isinstance(getattr(x, "_parent", None), ast.BinOp) and isinstance(x._parent.op, ast.Add) for x in uses_):
+                continue
             # is the saved value used to restore at all? (a size probe that re-saves is still a probe)
             prs = run_paths(ctx, fn, include_exc=True, rule="S8", limit=2000)
             for p in prs:
